@@ -21,8 +21,8 @@ type variant struct {
 	File     string `json:"file,omitempty"`
 	Old      string `json:"old,omitempty"`
 	New      string `json:"new,omitempty"`
-	Patch    string `json:"patch,omitempty"`  // path (relative to /verif) of a unified diff
-	Expect   string `json:"expect,omitempty"` // substring expected in a failed obligation key
+	Patch    string `json:"patch,omitempty"`   // path (relative to /verif) of a unified diff
+	Expect   string `json:"expect,omitempty"`  // substring expected in a failed obligation key
 	Neutral  bool   `json:"neutral,omitempty"` // behaviour-preserving edit: nothing may fire
 	Why      string `json:"why,omitempty"`
 }
